@@ -272,7 +272,9 @@ class CFG:
     def path_avoiding(self, starts: Iterable[Node], goal: Callable[[Node], bool],
                       blocked: Callable[[Node], bool],
                       follow: Optional[Callable[[str], bool]] = None,
-                      skip_start: bool = True) -> Optional[list[Node]]:
+                      skip_start: bool = True,
+                      edge_ok: Optional[Callable[[Node, str], bool]] = None) \
+            -> Optional[list[Node]]:
         """
         A path from any start node (exclusive when skip_start) to a node satisfying `goal`
         that passes no node satisfying `blocked` — or None. The must-pass-through check:
@@ -310,16 +312,19 @@ class CFG:
             for lb, t in n.succs:
                 if follow is not None and not follow(lb):
                     continue
+                if edge_ok is not None and not edge_ok(n, lb):
+                    continue
                 if t.id not in parent:
                     parent[t.id] = n
                     stack.append(t)
         return None
 
-    def dominated_by(self, node: Node, pred: Callable[[Node], bool]) -> bool:
+    def dominated_by(self, node: Node, pred: Callable[[Node], bool],
+                     edge_ok: Optional[Callable[[Node, str], bool]] = None) -> bool:
         """Every path entry -> node passes a node satisfying pred (node itself excluded)."""
         return self.path_avoiding([self.entry], lambda n: n is node,
                                   lambda n: n is not node and pred(n),
-                                  skip_start=False) is None
+                                  skip_start=False, edge_ok=edge_ok) is None
 
     @staticmethod
     def fmt_path(path: list[Node], limit: int = 12) -> list[str]:
